@@ -48,7 +48,7 @@ def cont(b, off):
     return b[off + 1] == 255 and off + 257 < len(b) and b[off + 257] == b[off]
 
 
-@spec(args=[Bytes, Int], ret=Int, fuel=2)
+@spec(args=[Bytes, Int], ret=Int, fuel=1)
 def merged_end(b, off):
     """offset of the last fragment of the item that starts at off"""
     if 0 <= off and off + 257 < len(b) and cont(b, off):
@@ -56,7 +56,7 @@ def merged_end(b, off):
     return off
 
 
-@spec(args=[Bytes, Int], ret=Bytes, fuel=2)
+@spec(args=[Bytes, Int], ret=Bytes, fuel=1)
 def merged_tail(b, off):
     """value bytes contributed by the fragments AFTER the one at off"""
     if 0 <= off and off + 257 < len(b) and cont(b, off):
@@ -64,7 +64,24 @@ def merged_tail(b, off):
     return b""
 
 
-@spec(args=[Bytes, Int], ret=Tlvs, fuel=2)
+@spec(args=[Bytes, Int], ret=Bool, fuel=1)
+def chain_ok(b, off):
+    """every fragment that continues the item at off has a complete header (precondition: off + 1 < len(b))"""
+    if 0 <= off and off + 257 < len(b) and cont(b, off):
+        return off + 258 < len(b) and chain_ok(b, off + 257)
+    return True
+
+
+@spec(args=[Bytes, Int], ret=Bool, fuel=1)
+def headers_ok(b, off):
+    """from off on, every item header (type and length byte) is complete - what a conformant sender produces"""
+    if off < 0 or off >= len(b):
+        return True
+    e = merged_end(b, off)
+    return off + 1 < len(b) and chain_ok(b, off) and headers_ok(b, e + 2 + b[e + 1])
+
+
+@spec(args=[Bytes, Int], ret=Tlvs, fuel=1)
 def items_from(b, off):
     """the items tlv_iterator yields from offset off on (headers assumed complete)"""
     if off < 0 or off >= len(b):
@@ -73,11 +90,12 @@ def items_from(b, off):
     return [(e, b[off], b[e + 1], frag(b, off) + merged_tail(b, off))] + items_from(b, e + 2 + b[e + 1])
 
 
-@spec(args=[Bytes, Tlvs, Int, Int, Int], ret=Blobs, fuel=2)
+@spec(args=[Bytes, Tlvs, Int, Int, Int], ret=Blobs, fuel=1)
 def split_from(b, its, i, start, sep):
-    """list items: b cut at every top-level item of type sep; a non-empty remainder is the last list item"""
+    """list items: b cut at every top-level item of type sep; a non-empty remainder is the last list item
+    (slices as Python takes them, so that the function is specified for arbitrary item lists too)"""
     if i < 0 or i >= len(its):
-        return [sub(b, start, len(b) - start)] if 0 <= start < len(b) else []
+        return [b[start:]] if len(b[start:]) > 0 else []
     if its[i][1] == sep:
-        return [sub(b, start, its[i][0] - start)] + split_from(b, its, i + 1, its[i][0] + 2, sep)
+        return [b[start:its[i][0]]] + split_from(b, its, i + 1, its[i][0] + 2, sep)
     return split_from(b, its, i + 1, start, sep)
